@@ -21,6 +21,8 @@ ASSUMPTIONS = ["concurrent interleavings are not explored", "the frozen table of
 TRUSTED = []
 
 MUTANTS = [
+    {"name": "umsync-failed-delete-unanswered", "file": "src/migration/scan_migration.rs", "old": "            if let Err(err) = Self::delete_keys(&mut src_client, transferred_keys).await {\n                task.set_resp_result(Ok(Resp::Error(\n                    format!(\"failed to forward entries from dst: {:?}\", err).into_bytes(),\n                )));\n                return;", "new": "            if let Err(err) = Self::delete_keys(&mut src_client, transferred_keys).await {\n                error!(\"failed to delete keys after forwarding: {:?}\", err);\n                return;", "expect": "C03.D1:handle_sync_task:answered-after-delete"},
+    {"name": "dump-error-skips-key", "file": "src/migration/scan_migration.rs", "old": "                (Resp::Bulk(BulkStr::Nil), _) | (_, None) => (),\n", "new": "                (Resp::Bulk(BulkStr::Nil), _) | (_, None) => (),\n                (Resp::Error(_), _) => (),\n", "expect": "C03.D1:produce_entries:skip-only-on-nil"},
     {"name": "lpop-not-blocking", "file": "src/proxy/command.rs", "old": "            | DataCmdType::Lpop\n", "new": "", "expect": "C03.D4:LPOP"},
     {"name": "delete-before-forward", "file": "src/migration/scan_migration.rs", "old": "            let dst_client_cache =\n                Self::forward_entries(dst_address, dst_client, client_factory, entries).await;\n            dst_client = Some(dst_client_cache);\n\n            Self::delete_keys(src_client, transferred_keys).await?;", "new": "            Self::delete_keys(src_client, transferred_keys).await?;\n            let dst_client_cache =\n                Self::forward_entries(dst_address, dst_client, client_factory, entries).await;\n            dst_client = Some(dst_client_cache);\n", "expect": "C03.D1"},
     {"name": "scan-always-advances", "file": "src/migration/scan_migration.rs", "old": "        if need_retry {\n            // Some keys are missed in this round.\n            // Retry the last index again.\n            Ok((index, false, dst_client))\n        } else {\n            Ok((next_index, next_index == 0, dst_client))\n        }", "new": "        let _ = need_retry;\n        Ok((next_index, next_index == 0, dst_client))", "expect": "C03.D1"},
